@@ -261,6 +261,26 @@ class CHECK(vlib.Check):
         ]
         for ops in D:
             case("directed", ops)
+        # every ordered pair (and some triples) of state-changing operations on one object, a Match after each:
+        # compiled regex -> range list / "`" / "" (the paths of SetPattern that return before regcomp) and back,
+        # negated -> plain, simple -> regex syntax, failed compile -> ok, through SetPattern, the pool and operator=
+        reps = [("sp", "abc"), ("sp", "a*"), ("sp", "("), ("sp", "`"), ("sp", ""), ("sp", "~"), ("sp", "<5-10>"), ("sp", "~<3>"),
+                ("sp", "`a"), ("sp", "~x"), ("sr", ""), ("sr", "a.*"), ("sr", "("), ("pl1", "abc"), ("pl1", "<5-10>"), ("pl1", "`"),
+                ("pl0", ""), ("as1", "a*"), ("as1", "<3>"), ("as0", ""), ("rs", "")]
+        probe = ["m:" + hx(s) for s in ("7", "abc", "a", "", "x", "3")]
+        def rep_op(kind, p):
+            if kind in ("sp", "sr"): return "%s:%s:?" % (kind, hx(p))
+            if kind.startswith("pl"): return "pl:%s:%s:?" % (hx(p), kind[2])
+            if kind.startswith("as"): return "as:%s:%s:0:?" % (hx(p), kind[2])
+            return "rs"
+        for a in reps:
+            for b in reps:
+                case("reuse-pairs", [rep_op(*a)] + probe[:3] + [rep_op(*b)] + probe)
+        for _ in range(200 if quick else 3000):
+            ops = []
+            for r in [rng.choice(reps) for _ in range(rng.choice([3, 4, 5]))]:
+                ops += [rep_op(*r)] + rng.sample(probe, 3)
+            case("reuse-pairs", ops)
         return self._mark(out)
 
     def _mark(self, out):
